@@ -276,7 +276,7 @@ func Hazards(p *Program) []string {
 	var checkFor func(f For)
 	checkFor = func(f For) {
 		v, ok := f.Iter.(Var)
-		if !ok || v.Ty.K != TList {
+		if !ok || (v.Ty.K != TList && v.Ty.K != TRange) {
 			return
 		}
 		hazard := false
